@@ -34,7 +34,11 @@ theorem intentCall_own (env : Env) (host : Val) (c : CmdName) (xs : List Val) : 
         dsimp only
         cases allStr ys with
         | none => trivial
-        | some ss => exact ⟨port, rfl⟩
+        | some ss =>
+          dsimp only
+          split
+          · trivial
+          · exact ⟨port, rfl⟩
   | unregister =>
     match xs with
     | [] => trivial
@@ -230,12 +234,13 @@ theorem cmdQuery_congr (env : Env) (pruning : Int) (sv : Services) (s1 s2 : List
   simp only [cmdQuery, pyUpper, h]
 
 /-- a server registered under one spelling is stored under the upper-cased name, with refresh time `now` -/
-theorem registered_view (env : Env) (sv : Services) (host port : Val) (s : List Nat) (now : Int) (h : Inv sv) :
+theorem registered_view (env : Env) (sv : Services) (host port : Val) (s : List Nat) (now : Int) (h : Inv sv)
+    (hr : registerRefuses env (host, port) = false) :
     view (cmdRegister env sv host (.tuple [.str s]) port now).sv (keyCode (.str (strUpper env s))) (addrCode (host, port))
       = some now := by
   have g := cmdRegister_good env 0 sv host (.tuple [.str s]) port now h
   rw [g.refines]
-  simp [intentCall, iterate', allStr, absApply, upperCodes]
+  simp [intentCall, iterate', allStr, absApply, upperCodes, hr]
 
 /-- what the abstract map holds under a name is in the inner dict the answer is computed from -/
 theorem mem_innerOf_of_view (sv : Services) (NAME : Val) (x : List Nat) (t : Int) (h : view sv (keyCode NAME) x = some t) :
